@@ -1,6 +1,170 @@
-(* C05 — A watch delivers exactly the matching changes, once, in order — or is closed. *)
-From KB Require Import Base.Cases Model.WatchSys Model.C05Cases.
+(* C05 — A watch delivers exactly the matching changes, once, in order — or is closed.
+   Property theorems only: each is closed by `exact <lemma>` and followed by Print Assumptions.
+   Model: Model/WatchSys.v (ring.go, watcherhub.go, watch.go, backend.go:208-273), every theorem about
+   `run pa ls (init l c0)` quantifies over ALL label lists ls (interleavings of sequencer take / cache insert /
+   broadcast, hub item, spawned deleter, ctx deleter, subscribe / cache read / spawn, processEvents step,
+   client step, cancel), all channel capacities and batch sizes pa, all cache sizes l >= 1, all initial
+   revisions c0; the producer sequence is whatever slots the LSeqTake labels carry (only slot committed+1 is
+   taken, failed slots produce no event). *)
+From KB Require Import Base.Cases Model.WatchSys Model.C05Cases
+  Proofs.WatchRing Proofs.WatchSys Proofs.WatchCatchup Proofs.C05Cases.
 Local Open Scope N_scope.
 
-Example C05_placeholder : real_params = mkParams 10000 100 300 100000.
-Proof. reflexivity. Qed.
+(* ---------- ring ---------- *)
+
+(* FindEvents on the ring built by Add returns exactly the cached events (the last min(l,n)) with revision >= S,
+   in order, across wrap-around; empty / high / low exactly when the window says so *)
+Theorem C05_ring : forall l sigma S, 0 < l -> increasing sigma ->
+  exists r, ring_of l sigma = Some r /\ find_events r S = find_spec l sigma S.
+Proof. exact ring_find_correct. Qed.
+Print Assumptions C05_ring.
+
+(* ---------- the stream ---------- *)
+
+(* full-strength statement of the prefix property *)
+Definition C05_prefix_statement : Prop :=
+  forall pa l c0 ls i w, 0 < l ->
+    nth_error (s_ws (run pa ls (init l c0))) i = Some w -> accepted w = true ->
+    is_prefix (concat (w_got w)) (ideal (w_S w) (w_P w) (w_base w) (s_cached (run pa ls (init l c0)))).
+
+(* the faithful model refutes it (finding C05-F1): a batch is dropped for a full buffer, the spawned deleter has
+   not run yet, the client takes a batch, the next batch is accepted: revisions 1 and 3 delivered, 2 skipped *)
+Definition c05_we (r : N) : wevent := mkWe r 0 true VCreate [47; 97] [r].
+Definition c05_prod (r : N) : list label := [LSeqTake (c05_we r); LSeqCache; LSeqSend].
+Definition c05_gap_run : list label :=
+  [LWatchSub 0 []; LWatchSpawn 0] ++ c05_prod 1 ++ c05_prod 2 ++ c05_prod 3 ++
+  [LHubItem []; LHubItem []; LProc 0; LProc 0; LHubItem []; LProc 0; LConsume 0; LProc 0; LConsume 0;
+   LHubDelete 0; LProc 0; LConsume 0].
+Definition c05_small : params := mkParams 1 1 1 10.
+
+Theorem C05_prefix_refuted : ~ C05_prefix_statement.
+Proof.
+  intros H.
+  pose (s := run c05_small c05_gap_run (init 2 0)).
+  assert (Hw : exists w, nth_error (s_ws s) 0 = Some w) by (vm_compute; eexists; reflexivity).
+  destruct Hw as [w Hw].
+  assert (Hacc : accepted w = true) by (vm_compute in Hw; injection Hw as <-; reflexivity).
+  specialize (H c05_small 2 0 c05_gap_run 0%nat w ltac:(reflexivity) Hw Hacc).
+  apply is_prefix_prefixb in H. vm_compute in Hw. injection Hw as <-. vm_compute in H. discriminate.
+Qed.
+Print Assumptions C05_prefix_refuted.
+
+(* the property holds for every watcher that never accepted a batch after a dropped one ... *)
+Theorem C05_prefix_nogap : forall pa l c0 ls i w, 0 < l ->
+  nth_error (s_ws (run pa ls (init l c0))) i = Some w -> accepted w = true -> w_gap w = false ->
+  is_prefix (concat (w_got w)) (ideal (w_S w) (w_P w) (w_base w) (s_cached (run pa ls (init l c0)))).
+Proof. exact prefix_nogap. Qed.
+Print Assumptions C05_prefix_nogap.
+
+(* ... in particular for every run in which the spawned deleter runs before the hub's next item (what the
+   repair — delete slow subscribers synchronously — enforces) *)
+Theorem C05_prefix_except_async_delete : forall pa l c0 ls i w, 0 < l ->
+  sync_delete_run pa ls (init l c0) ->
+  nth_error (s_ws (run pa ls (init l c0))) i = Some w -> accepted w = true ->
+  is_prefix (concat (w_got w)) (ideal (w_S w) (w_P w) (w_base w) (s_cached (run pa ls (init l c0)))).
+Proof. exact prefix_except_async_delete. Qed.
+Print Assumptions C05_prefix_except_async_delete.
+
+(* open result channel and nothing enabled for producer, hub, processEvents, client: everything was delivered *)
+Theorem C05_complete : forall pa l c0 ls i w, 0 < l ->
+  nth_error (s_ws (run pa ls (init l c0))) i = Some w -> settled (run pa ls (init l c0)) w ->
+  concat (w_got w) = ideal (w_S w) (w_P w) (w_base w) (s_cached (run pa ls (init l c0))).
+Proof. exact complete_settled. Qed.
+Print Assumptions C05_complete.
+
+(* a watch with S > 0 is accepted only if every event with revision >= S that was fanned out before its
+   subscription was in the cache window FindEvents read (all others are offered to the subscriber) *)
+Theorem C05_refusal_sound : forall pa l c0 ls i w, 0 < l ->
+  nth_error (s_ws (run pa ls (init l c0))) i = Some w -> accepted w = true -> w_S w <> 0 ->
+  forall e, In e (firstn (w_base w) (s_cached (run pa ls (init l c0)))) -> w_S w <= e_rev e -> In e (w_snap w).
+Proof. exact refusal_sound. Qed.
+Print Assumptions C05_refusal_sound.
+
+(* the ordering premise of the producer: what the hub has fanned out, what waits in watchChan and the batch
+   under construction are, in this order, exactly the cached events, which are strictly increasing *)
+Theorem C05_cache_before_broadcast : forall pa l c0 ls, 0 < l ->
+  let s := run pa ls (init l c0) in
+  s_cached s = s_hub s ++ concat (s_wchan s) ++ s_pending s /\ sorted (s_cached s).
+Proof. exact cache_before_broadcast. Qed.
+Print Assumptions C05_cache_before_broadcast.
+
+(* catchUpEvents fits into the result channel: Watch never blocks before returning, and never divides by zero *)
+Theorem C05_catchup_fits : forall pa evs, fits_params pa -> evs <> [] ->
+  exists bs cs, catchup_batch_size pa (N.of_nat (length evs)) = Some bs /\
+                chunks (S (length evs)) (N.to_nat bs) evs = Some cs /\
+                N.of_nat (length cs) <= p_out pa /\ concat cs = evs.
+Proof. exact catchup_fits. Qed.
+Print Assumptions C05_catchup_fits.
+
+Theorem C05_catchup_fits_real : fits_params real_params.
+Proof. exact real_params_fit. Qed.
+Print Assumptions C05_catchup_fits_real.
+
+Theorem C05_watch_never_hangs : forall pa l sigma S P c, fits_params pa ->
+  watch_decide pa S P (find_spec l sigma S) c <> DHang /\ watch_decide pa S P (find_spec l sigma S) c <> DPanic.
+Proof. exact decide_never_hangs. Qed.
+Print Assumptions C05_watch_never_hangs.
+
+(* the executable oracle accepts what the model produces *)
+Theorem C05_oracle_sound_ring : forall l revs S obs,
+  c05_valid (KRing l revs S obs) -> c05_check (KRing l revs S obs) = true -> c05_oracle (KRing l revs S obs) = None.
+Proof. exact c05_oracle_sound_ring. Qed.
+Print Assumptions C05_oracle_sound_ring.
+
+Theorem C05_oracle_prefix_test_partial : forall pa l c0 ls i w, 0 < l ->
+  nth_error (s_ws (run pa ls (init l c0))) i = Some w -> accepted w = true -> w_gap w = false ->
+  prefixb (concat (w_got w)) (ideal (w_S w) (w_P w) (w_base w) (s_cached (run pa ls (init l c0)))) = true.
+Proof. exact model_passes_prefix_test. Qed.
+Print Assumptions C05_oracle_prefix_test_partial.
+
+(* ---------- non-vacuity ---------- *)
+
+(* a wrapped ring (l = 3, seven events with gaps) and a start revision inside the window *)
+Example C05_ring_wrapped :
+  option_map (fun r => obs_of_find (find_events r 108)) (ring_of 3 (map ring_ev [101; 102; 104; 105; 107; 108; 110]))
+  = Some (ROEvents 110 107 [Some 108; Some 110]).
+Proof. vm_compute. reflexivity. Qed.
+
+(* a settled, accepted watcher with replay: S = 2 inside a window of 2, prefix "/a", three events, one catch-up
+   batch and one live batch; the hypotheses of C05_complete / C05_refusal_sound / C05_prefix_nogap hold *)
+Definition c05_ok_run : list label :=
+  c05_prod 1 ++ [LHubItem []] ++ c05_prod 2 ++ [LHubItem []; LWatchSub 2 [47]; LWatchRead 0] ++
+  c05_prod 3 ++ [LWatchSpawn 0; LHubItem []; LProc 0; LProc 0; LConsume 0; LConsume 0].
+Example C05_complete_inhabited :
+  let s := run real_params c05_ok_run (init 2 0) in
+  match nth_error (s_ws s) 0 with
+  | Some w => accepted w = true /\ w_gap w = false /\ w_S w <> 0 /\
+              map e_rev (concat (w_got w)) = [2; 3] /\ map e_rev (w_snap w) = [2] /\
+              s_cur s = None /\ s_pending s = [] /\ s_wchan s = [] /\ w_phase w = PhRun /\ w_delpend w = 0%nat /\
+              c_buf (w_sub w) = [] /\ c_closed (w_sub w) = false /\ w_hold w = None /\
+              c_buf (w_out w) = [] /\ c_closed (w_out w) = false
+  | None => False
+  end.
+Proof. vm_compute. repeat split; discriminate. Qed.
+
+(* the gap run is not a sync-delete run, and a run with the deleter in time is *)
+Example C05_sync_run_inhabited :
+  no_deleter_pending (run c05_small ([LWatchSub 0 []; LWatchSpawn 0] ++ c05_prod 1 ++ c05_prod 2 ++ [LHubItem []; LHubItem []; LHubDelete 0]) (init 2 0)).
+Proof. vm_compute. repeat constructor. Qed.
+
+(* the parameter hypothesis of C05_catchup_fits is needed: out = 4, batch = 1, five events -> blocked for ever *)
+Example C05_catchup_hypothesis_needed :
+  let evs := map (fun r => to_event (c05_we r)) [1; 2; 3; 4; 5] in
+  watch_decide (mkParams 10 4 1 10) 1 [] (FEvents (to_event (c05_we 5)) (to_event (c05_we 1)) (map Some evs)) 5 = DHang.
+Proof. vm_compute. reflexivity. Qed.
+
+(* the ordering premise is needed: with broadcast before cache insert (step_swapped) a watch registered between
+   the two loses revision 2 although its stream continues: delivered 1, 3 *)
+Definition c05_swapped_run : list label :=
+  [LSeqTake (c05_we 1); LSeqSend; LSeqCache; LHubItem [];
+   LSeqTake (c05_we 2); LSeqSend; LHubItem []; LWatchSub 1 []; LWatchRead 0; LWatchSpawn 0; LSeqCache;
+   LSeqTake (c05_we 3); LSeqSend; LSeqCache; LHubItem [];
+   LConsume 0; LProc 0; LProc 0; LConsume 0].
+Example C05_order_needed :
+  let s := run_swapped real_params c05_swapped_run (init 4 0) in
+  match nth_error (s_ws s) 0 with
+  | Some w => accepted w = true /\ w_gap w = false /\ map e_rev (concat (w_got w)) = [1; 3] /\
+              map e_rev (ideal (w_S w) (w_P w) (w_base w) (s_cached s)) = [1; 2; 3]
+  | None => False
+  end.
+Proof. vm_compute. repeat split. Qed.
